@@ -67,3 +67,15 @@ def _closures_in(e, out=None):
     elif e[0] in ("unop", "cast"):
         _closures_in(e[2], out)
     return out
+
+
+def flat_ops(ctx, e):
+    """{field name: operand expr} of a struct aggregate expression, with the fields of nested aggregates of crate structs
+    merged in (bookkeeping grouped in a private struct of its own: `free: FreeList { head, filled }`)."""
+    out = dict(zip(e[3], e[2])) if len(e) > 3 else {}
+    for v_ in list(out.values()):
+        if isinstance(v_, tuple) and v_ and v_[0] == "agg" and len(v_) > 3 and v_[1].rsplit("::", 1)[0] in ctx.facts.adts and \
+                ctx.facts.adts[v_[1].rsplit("::", 1)[0]]["kind"] == "struct":
+            for k_, x_ in zip(v_[3], v_[2]):
+                out.setdefault(k_, x_)
+    return out
